@@ -81,6 +81,10 @@ fn main() {
     if !quiet {
         eprintln!("VERIF_SEED={seed} tier={} workers={}", tier.as_str(), runner::workers());
     }
+    if tier == Tier::Thorough && std::env::var("GSIM_SKETCH_LOG2").is_err() {
+        // inherited by the worker processes
+        std::env::set_var("GSIM_SKETCH_LOG2", "27");
+    }
     let code = match args[1].as_str() {
         "check" => check::check(&args[2], tier, seed),
         "replay" => check::replay(&args[2], quiet),
